@@ -10,7 +10,7 @@ EXPLANATION = (
     'which produces its Ok value only from the KeyValueResponse::K arm; R17.b every field of the operation comes from the like-named '
     'parameter through at most Into::into, every component returned by unwrap_K comes from the matched response field through at most '
     'the Value -> Option conversion, and the shell\'s error is returned (a clone is tabled); R17.c the two Value conversions map '
-    'None <-> Value::None and Some(b) <-> Value::Bytes(b) with b moved and no call. Bytes across the bridge are C10.')
+    'None <-> Value::None and Some(b) <-> Value::Bytes(b) with b moved and no call. Bytes across the bridge are C10; R17.f shares its codec rules (no byte limit, one options value, fresh output buffer), since a limit would reject large values only on the bridge path.')
 
 OPS = [('Get', 'get', 'unwrap_get', {'key': 'key'}, {'value'}),
        ('Set', 'set', 'unwrap_set', {'key': 'key', 'value': 'value'}, {'previous'}),
@@ -205,4 +205,14 @@ def check(ctx, rep):
         rep.missing('R17.d', 'crux_core facts')
     else:
         _prims.check_request_typestate(rep, 'R17.d', _core)
+    # R17.f: a value or a page of keys of ANY size is delivered over the bridge as it is under the typed core: the codec has one options
+    # value with no byte limit (bincode applies a limit when decoding only, so a large response would be rejected after its one-shot was
+    # consumed) and each entry point returns exactly the buffer it serialised into (shared with C10 R10.d / R10.g)
+    from rules.props import c10 as _c10
+    rep.rule('R17.f', 'the bridge codec has no byte limit and one options value for both directions; entry points return the buffer they serialised into', floor=8)
+    if _core is None:
+        rep.missing('R17.f', 'crux_core facts')
+    else:
+        _c10.check_codec(ctx, rep, rid='R17.f')
+        _c10.check_output_buffers(rep, 'R17.f', _core)
     rep.assume('a response of another kind than the operation\'s is a shell protocol error (unwrap_K panics, documented)')
